@@ -298,7 +298,7 @@ Qed.
 (** How often the value set is built: once in the enabled branch; in the disabled branch only by the log-only code. *)
 Lemma evals_count ls k g :
   List.length (filter (occurrence_runs ls g) [(InThen, NoLog); (InElse, else_wrap k)])
-  = (if g then 1 else if spec_log_formats ls k then 1 else 0)%nat.
+  = (if g then 1 else if spec_log_formats ls || known_F101 ls k false then 1 else 0)%nat.
 Proof. destruct ls as [[] [] [] [] []], k, g; reflexivity. Qed.
 
 Lemma concat_entries its : List.concat (map ve_ticks (map spec_entry its)) = List.concat (map item_ticks its).
@@ -332,7 +332,7 @@ Lemma run_fields ls k p lvl f c :
   | _, _, _ => None
   end
   = Some (mk_out (spec_names f) (if guard c lvl then Some (spec_visits f) else None)
-                 (if guard c lvl then spec_ticks f else if spec_log_formats ls k then spec_ticks f else [])).
+                 (if guard c lvl then spec_ticks f else if spec_log_formats ls || known_F101 ls k false then spec_ticks f else [])).
 Proof.
   intros Hp Hi. rewrite body_known by exact Hp.
   unfold fieldset_expand, valueset_expand. rewrite fieldset_go_spec, valueset_go_spec.
@@ -347,15 +347,22 @@ Proof.
         with (Some (Some (MDebug, SDbg (fm_text m)))).
       reflexivity.
     + rewrite pair_up_items. rewrite vs_record_items by exact Hi. reflexivity.
-  - destruct (spec_log_formats ls k); cbn [repeat List.concat]; rewrite ?app_nil_r; destruct (f_fmt f); reflexivity.
+  - destruct (spec_log_formats ls || known_F101 ls k false); cbn [repeat List.concat]; rewrite ?app_nil_r; destruct (f_fmt f); reflexivity.
 Qed.
 
-Lemma run_log_spec : forall ls inv c, wf_inv inv = true ->
-  run_log ls inv c = Some (spec_outcome_log ls inv (guard c (i_level inv))).
+(** What the model of the code does, unconditionally (the known finding included). *)
+Definition model_outcome_log (ls : logstate) (inv : invocation) (g : bool) : outcome :=
+  mk_out (spec_names (i_fields inv))
+         (if g then Some (spec_visits (i_fields inv)) else None)
+         (if g then spec_ticks (i_fields inv)
+          else if spec_log_formats ls || known_F101 ls (i_kind inv) false then spec_ticks (i_fields inv) else []).
+
+Lemma run_log_model : forall ls inv c, wf_inv inv = true ->
+  run_log ls inv c = Some (model_outcome_log ls inv (guard c (i_level inv))).
 Proof.
   intros ls [k p lvl br f] c H. unfold wf_inv in H. cbn [i_kind i_prefix i_brace i_fields] in H.
   apply andb_true_iff in H as [H Hi]. apply andb_true_iff in H as [Hp Hb].
-  unfold run_log, spec_outcome_log, desugar_brace. cbn [i_kind i_prefix i_brace i_fields i_level].
+  unfold run_log, model_outcome_log, desugar_brace. cbn [i_kind i_prefix i_brace i_fields i_level].
   destruct br.
   - (* brace form: events only *)
     destruct k; [|discriminate Hb].
@@ -371,26 +378,54 @@ Proof.
   - apply (run_fields ls k p lvl f c Hp Hi).
 Qed.
 
+Lemma known_F101_enabled ls k : known_F101 ls k true = false.
+Proof. reflexivity. Qed.
+
+(** Outside the known finding the model meets the specification. *)
+Lemma run_log_spec : forall ls inv c, wf_inv inv = true ->
+  known_F101 ls (i_kind inv) (guard c (i_level inv)) = false ->
+  run_log ls inv c = Some (spec_outcome_log ls inv (guard c (i_level inv))).
+Proof.
+  intros ls inv c W K. rewrite (run_log_model ls inv c W). unfold model_outcome_log, spec_outcome_log.
+  destruct (guard c (i_level inv)); [reflexivity|]. rewrite K, orb_false_r. reflexivity.
+Qed.
+
 Lemma run_spec : forall inv c, wf_inv inv = true ->
   run inv c = Some (spec_outcome inv (guard c (i_level inv))).
-Proof. intros inv c H. unfold run. rewrite (run_log_spec log_off inv c H). reflexivity. Qed.
+Proof.
+  intros inv c H. unfold run. rewrite (run_log_model log_off inv c H). unfold model_outcome_log, spec_outcome.
+  destruct (guard c (i_level inv)); [reflexivity|]. destruct (i_kind inv); reflexivity.
+Qed.
 
 (** With `log`: enabled -> exactly once, as without; disabled -> nothing reaches the collector, and the expressions are
-    evaluated (once) exactly when the log-only code formats the record.  Once any dispatcher has been set (and without
-    `log-always`) that never happens. *)
+    evaluated (once) exactly when the log record is actually built - every filtering stage of the `log` side counts.
+    Once any dispatcher has been set (and without `log-always`) that never happens.  Hypothesis: not the known F101. *)
 Lemma lazy_with_log : forall ls inv c, wf_inv inv = true ->
+  known_F101 ls (i_kind inv) (guard c (i_level inv)) = false ->
   exists o, run_log ls inv c = Some o
     /\ (guard c (i_level inv) = true -> o_ticks o = spec_ticks (i_fields inv) /\ o_delivered o <> None)
     /\ (guard c (i_level inv) = false -> o_delivered o = None
-         /\ o_ticks o = (if spec_log_formats ls (i_kind inv) then spec_ticks (i_fields inv) else []))
+         /\ o_ticks o = (if spec_log_formats ls then spec_ticks (i_fields inv) else []))
     /\ (l_mode ls = LogOn -> l_dispatch_ever ls = true -> guard c (i_level inv) = false -> o_ticks o = []).
 Proof.
-  intros ls inv c W. rewrite (run_log_spec ls inv c W). eexists. split; [reflexivity|].
+  intros ls inv c W K. rewrite (run_log_spec ls inv c W K). eexists. split; [reflexivity|].
   unfold spec_outcome_log. split; [|split].
   - intros ->. simpl. split; [reflexivity|discriminate].
   - intros ->. simpl. split; reflexivity.
-  - intros M D ->. simpl. unfold spec_log_formats. rewrite M, D. rewrite andb_false_r. reflexivity.
+  - intros M D ->. simpl. unfold spec_log_formats, log_reached. rewrite M, D. rewrite andb_false_r. reflexivity.
 Qed.
+
+(** F101, concretely: a span, `log` on, no dispatcher ever, the logger rejecting everything. *)
+Definition f101_ls : logstate := mk_ls LogOn true false false false.
+Definition f101_inv : invocation :=
+  mk_inv MSpan "" 3 false (mk_fields [IKV (KeyPath [[97]]) SNone [0] (mk_rv (TPrim U8) (PInt 1) [49] [49])] false None).
+Definition f101_coll : collector := mk_coll 5 5 Never false.
+Lemma F101_refuted :
+  wf_inv f101_inv = true /\ guard f101_coll (i_level f101_inv) = false /\ spec_log_formats f101_ls = false
+  /\ known_F101 f101_ls (i_kind f101_inv) false = true
+  /\ option_map o_ticks (run_log f101_ls f101_inv f101_coll) = Some [0]
+  /\ run_log f101_ls f101_inv f101_coll <> Some (spec_outcome_log f101_ls f101_inv false).
+Proof. vm_compute. repeat split; discriminate. Qed.
 
 (** * 6. Readable corollaries of the specification functions *)
 Lemma spec_visits_from_names : forall its i,
